@@ -31,6 +31,7 @@
 #include <set>
 #include <deque>
 #include <algorithm>
+#include <execinfo.h>
 
 #define MAXT 16
 #define MAXP 6144
@@ -38,7 +39,7 @@ enum { ST_FREE=0, ST_RUN, ST_BLOCK, ST_JOIN, ST_GATE, ST_DONE };
 enum { R_OKAY=0, R_VIOLATION=1, R_DEADLOCK=2, R_HORIZON=3, R_LIVELOCK=4, R_PRUNED=5, R_HANG=6, R_DIVERGE=8, R_CRASH=9, R_TIMEOUT=10 };
 static const char* status_name(int s){ switch(s){ case 0:return "ok"; case 1:return "violation"; case 2:return "deadlock"; case 3:return "horizon"; case 4:return "livelock"; case 5:return "pruned"; case 6:return "hang"; case 8:return "divergence"; case 9:return "crash"; case 10:return "timeout"; } return "?"; }
 
-struct T { int st; int go; const void* waddr; int join_target; pthread_t pt; int nyield; };
+struct T { int st; int go; const void* waddr; int join_target; pthread_t pt; int nyield; int nblocks; };
 static T th[MAXT]; static int nth=0; static __thread int me=-1;
 static int active=0, window=0, liveness=0, inproc=0;
 static unsigned long steps=0; static long vclock=0; static unsigned long stampctr=0;
@@ -88,6 +89,7 @@ struct TraceEv{ unsigned char t, kind; const char* op; const void* a; };
 static TraceEv ring[RING]; static unsigned ringpos=0;
 static void dump_ring(){ fprintf(stderr,"--- last %d scheduling steps (thread op addr) ---\n",RING); for(unsigned i=0;i<RING;i++){ TraceEv&e=ring[(ringpos+i)%RING]; if(e.op) fprintf(stderr,"T%d %s%s %p\n",e.t,e.op,e.kind==1?" [yield]":e.kind==2?" [block]":"",e.a);} fprintf(stderr,"--- states:"); for(int t=0;t<nth;t++) fprintf(stderr," T%d=%d(%p)",t,th[t].st,th[t].waddr); fprintf(stderr,"\n"); }
 
+static void crash_handler(int sig){ fprintf(stderr,"*** signal %d in T%d at step %lu\n",sig,me,steps); void* bt[48]; int n=backtrace(bt,48); backtrace_symbols_fd(bt,n,2); dump_ring(); signal(sig,SIG_DFL); raise(sig); }
 static void finish(int status,const char*msg) __attribute__((noreturn));
 extern "C" void vf_ip_fail(const char*b) __attribute__((noreturn));
 static void finish(int status,const char*msg){
@@ -145,7 +147,8 @@ extern "C" unsigned long vf_steps(){ return steps; }
 static int stamp_addr;
 extern "C" unsigned long vf_stamp(){ if(active&&me>=0) fp_event(&stamp_addr,1); return ++stampctr; }
 extern "C" void vf_liveness(int on){ liveness=on; }
-static void block_on(const void*a,const char*op){ th[me].st=ST_BLOCK; th[me].waddr=a; schedule(2,op,a); }
+extern "C" int vf_nblocks(){ return (active&&me>=0)?th[me].nblocks:0; }
+static void block_on(const void*a,const char*op){ th[me].nblocks++; th[me].st=ST_BLOCK; th[me].waddr=a; schedule(2,op,a); }
 static int wake_addr(const void*a,int max){ int n=0; for(int t=0;t<nth&&n<max;t++) if(th[t].st==ST_BLOCK&&th[t].waddr==a){ th[t].st=ST_RUN; n++; } return n; }
 extern "C" void vf_block_on(void*a){ if(!active||me<0) return; vf_tso_drain(); fp_event(a,0); block_on(a,"block"); vf_hb_acquire(a); }
 extern "C" void vf_wake(void*a){ if(!active||me<0) return; vf_tso_drain(); vf_hb_release(a); fp_event(a,1); wake_addr(a,MAXT); }
@@ -175,7 +178,7 @@ typedef int(*create_fn)(pthread_t*,const pthread_attr_t*,void*(*)(void*),void*);
 static create_fn real_create=0;
 static int new_thread(pthread_t*pt,const pthread_attr_t*a,void*(*fn)(void*),vf_fn vfn,void*arg){ vf_tso_drain();
   if(nth>=MAXT){ finish(R_CRASH,"engine: too many threads"); }
-  Start*s=(Start*)malloc(sizeof(Start)); s->fn=fn; s->vfn=vfn; s->arg=arg; s->id=nth; th[nth].st=ST_RUN; th[nth].go=0; th[nth].nyield=0; hthr[nth]=mix(0xabc,nth); vf_tso_reset_thread(nth); if(me>=0) vf_hb_fork(me,nth); nth++;
+  Start*s=(Start*)malloc(sizeof(Start)); s->fn=fn; s->vfn=vfn; s->arg=arg; s->id=nth; th[nth].st=ST_RUN; th[nth].go=0; th[nth].nyield=0; th[nth].nblocks=0; hthr[nth]=mix(0xabc,nth); vf_tso_reset_thread(nth); if(me>=0) vf_hb_fork(me,nth); nth++;
   pthread_t tmp; pthread_attr_t at; pthread_attr_init(&at); size_t ss=0; if(a) pthread_attr_getstacksize(a,&ss); if(ss<(1u<<20)) ss=1u<<20; pthread_attr_setstacksize(&at,ss);
   int r=real_create(pt?pt:&tmp,&at,tramp,s); pthread_attr_destroy(&at); int id=s->id; th[id].pt=pt?*pt:tmp; if(r){ finish(R_CRASH,"engine: pthread_create failed"); }
   vf_point_local("create"); return id; }
@@ -279,7 +282,7 @@ extern "C" int vf_main(int argc,char**argv,void(*scenario)(void)){
       if(!verbose){ int dn=open("/dev/null",O_WRONLY); if(dn>=0){ dup2(dn,1); dup2(dn,2); close(dn);} }
       char c; while(read(zs[j].cmd[0],&c,1)==1){ pid_t pid=fork();
         if(pid==0){ prctl(PR_SET_PDEATHSIG,SIGKILL); struct rlimit rl={0,0}; setrlimit(RLIMIT_CORE,&rl); alarm(slots[j].flags&2?O.exec_timeout*10:O.exec_timeout);
-          mycost=0; R=&slots[j].r; prefix=slots[j].prefix; nprefix=slots[j].nprefix; if(slots[j].flags&2) horizon*=10; if(slots[j].flags&7) use_fp=0; me=0; nth=1; th[0].st=ST_RUN; hthr[0]=mix(0xabc,0); active=1; scenario(); finish(R_OKAY,0); }
+          mycost=0; R=&slots[j].r; prefix=slots[j].prefix; nprefix=slots[j].nprefix; if(slots[j].flags&2) horizon*=10; if(slots[j].flags&7) use_fp=0; me=0; nth=1; th[0].st=ST_RUN; hthr[0]=mix(0xabc,0); if(verbose){ signal(SIGSEGV,crash_handler); signal(SIGABRT,crash_handler); signal(SIGBUS,crash_handler); } active=1; scenario(); finish(R_OKAY,0); }
         int st=0; waitpid(pid,&st,0); if(WIFSIGNALED(st)){ slots[j].r.sig=WTERMSIG(st); if(WTERMSIG(st)==SIGALRM){ slots[j].r.status=R_TIMEOUT; snprintf(slots[j].r.msg,sizeof slots[j].r.msg,"execution exceeded %d s wall time (token holder parked in the kernel, or runaway loop)",O.exec_timeout);} else { slots[j].r.status=R_CRASH; snprintf(slots[j].r.msg,sizeof slots[j].r.msg,"crash: signal %d (%s)",WTERMSIG(st),strsignal(WTERMSIG(st))); } }
         else if(WIFEXITED(st)&&WEXITSTATUS(st)!=0){ slots[j].r.status=R_CRASH; snprintf(slots[j].r.msg,sizeof slots[j].r.msg,"crash: process exited with status %d",WEXITSTATUS(st)); }
         if(write(zs[j].res[1],&c,1)!=1) _exit(0); }
@@ -360,10 +363,11 @@ extern "C" int vf_main(int argc,char**argv,void(*scenario)(void)){
   std::string replaypath;
   if(engine_error) printf("ENGINE-ERROR %s\n",engine_msg.c_str());
   for(size_t i=0;i<viols.size();i++){ auto&v=viols[i]; printf("FOUND %s: %s  schedule=[%s]\n",status_name(v.status),v.msg.c_str(),prefix_str(v.node).c_str());
-    if(!replaying && i==0){ std::string cmd="mkdir -p "+O.replaydir; if(system(cmd.c_str())){} replaypath=O.replaydir+"/"+O.tag+".vfr"; FILE*f=fopen(replaypath.c_str(),"w"); if(f){ fprintf(f,"# vsched replay file\nbinary=%s\nargs=",argv[0]); for(int a=1;a<argc;a++){ std::string s=argv[a]; if(s=="-json"||s=="-deadline"||s=="-b"||s=="-j"||s=="-tag"||s=="-replaydir"||s=="-n"){ a++; continue;} if(s=="-fp"||s=="-keepgoing") continue; fprintf(f,"%s ",argv[a]); } fprintf(f,"\nschedule=%s\nstatus=%s\nmessage=%s\noutcome=%s\n",prefix_str(v.node).c_str(),status_name(v.status),v.msg.c_str(),v.outcome.c_str()); fclose(f);} } }
+    if(!replaying && i==0){ std::string cmd="mkdir -p "+O.replaydir; if(system(cmd.c_str())){} replaypath=O.replaydir+"/"+O.tag+".vfr"; FILE*f=fopen(replaypath.c_str(),"w"); if(f){ fprintf(f,"# vsched replay file\nbinary=%s\nargs=",argv[0]); for(int a=1;a<argc;a++){ std::string s=argv[a]; if(s=="-json"||s=="-deadline"||s=="-b"||s=="-j"||s=="-tag"||s=="-replaydir"||s=="-n"){ a++; continue;} if(s=="-fp"||s=="-keepgoing") continue; if(s=="-known"){ a++; continue; } fprintf(f,"'%s' ",argv[a]); } fprintf(f,"\nschedule=%s\nstatus=%s\nmessage=%s\noutcome=%s\n",prefix_str(v.node).c_str(),status_name(v.status),v.msg.c_str(),v.outcome.c_str()); fclose(f);} } }
   if(!O.json.empty()){ FILE*f=fopen(O.json.c_str(),"w"); if(f){
     fprintf(f,"{\"tag\":\"%s\",\"bound\":%d,\"completed_bound\":%d,\"exhaustive\":%s,\"executions\":%ld,\"pruned\":%ld,\"violations\":%ld,\"known\":%ld,\"horizon_unresolved\":%ld,\"slow_executions\":%ld,\"distinct_outcomes\":%zu,\"distinct_conflict_outcomes\":%zu,\"conflict_executions\":%ld,\"states\":%ld,\"transitions\":%lu,\"choice_points\":%lu,\"wall_s\":%.3f,\"fp_pruning\":%s,\"engine_error\":%s,\"engine_msg\":\"%s\",\"replay\":\"%s\",",
       O.tag.c_str(),maxb,completed_bound,exhaustive?"true":"false",nexec,npruned,nviol,nknown,nhor,ntimeouts,outcomes.size(),outcomes_conf.size(),nconfl,states,totsteps,totpoints,wall,use_fp?"true":"false",engine_error?"true":"false",jesc(engine_msg).c_str(),jesc(replaypath).c_str());
+    { uint64_t oh=0; for(auto&o:outcomes){ uint64_t h=0x55; for(char c:o.first) h=mix(h,(unsigned char)c); oh^=h; } fprintf(f,"\"outcome_set_hash\":\"%016lx\",",(unsigned long)oh); }
     fprintf(f,"\"violation_msgs\":["); for(size_t i=0;i<viols.size();i++) fprintf(f,"%s\"%s: %s\"",i?",":"",status_name(viols[i].status),jesc(viols[i].msg).c_str()); fprintf(f,"],");
     fprintf(f,"\"known_msgs\":{"); { int i=0; for(auto&k:knownmsgs) fprintf(f,"%s\"%s\":%ld",i++?",":"",jesc(k.first).c_str(),k.second); } fprintf(f,"},");
     fprintf(f,"\"outcomes\":["); { int i=0; for(auto&o:outcomes){ if(i>=24) break; fprintf(f,"%s[\"%s\",%ld]",i++?",":"",jesc(o.first).c_str(),o.second);} } fprintf(f,"],");
@@ -406,7 +410,7 @@ extern "C" int vf_main_cases(int argc,char**argv,long ncases,void(*scenario)(lon
   std::string vsched_s;
   if(vj>=0){ IPShared&v=sh[vj]; for(int i=0;i<v.vlen;i++) if(v.vprefix[i]){ if(!vsched_s.empty()) vsched_s+=","; vsched_s+=std::to_string(i)+":"+std::to_string(v.vprefix[i]); }
     printf("FOUND violation: %s  case=%ld schedule=[%s]\n",v.msg,v.vcase,vsched_s.c_str());
-    if(!replaying){ std::string cmd="mkdir -p "+O.replaydir; if(system(cmd.c_str())){} replaypath=O.replaydir+"/"+O.tag+".vfr"; FILE*f=fopen(replaypath.c_str(),"w"); if(f){ fprintf(f,"# vsched replay file (in-process harness)\nbinary=%s\nargs=",argv[0]); for(int a=1;a<argc;a++){ std::string s=argv[a]; if(s=="-json"||s=="-deadline"||s=="-b"||s=="-j"||s=="-tag"||s=="-replaydir"||s=="-n"){ a++; continue;} fprintf(f,"%s ",argv[a]); } fprintf(f,"-p case=%ld \nschedule=%s\nstatus=violation\nmessage=%s\n",v.vcase,vsched_s.empty()?"0:0":vsched_s.c_str(),v.msg); fclose(f);} } }
+    if(!replaying){ std::string cmd="mkdir -p "+O.replaydir; if(system(cmd.c_str())){} replaypath=O.replaydir+"/"+O.tag+".vfr"; FILE*f=fopen(replaypath.c_str(),"w"); if(f){ fprintf(f,"# vsched replay file (in-process harness)\nbinary=%s\nargs=",argv[0]); for(int a=1;a<argc;a++){ std::string s=argv[a]; if(s=="-json"||s=="-deadline"||s=="-b"||s=="-j"||s=="-tag"||s=="-replaydir"||s=="-n"||s=="-known"){ a++; continue;} fprintf(f,"'%s' ",argv[a]); } fprintf(f,"-p case=%ld \nschedule=%s\nstatus=violation\nmessage=%s\n",v.vcase,vsched_s.empty()?"0:0":vsched_s.c_str(),v.msg); fclose(f);} } }
   if(!O.json.empty()){ FILE*f=fopen(O.json.c_str(),"w"); if(f){ fprintf(f,"{\"tag\":\"%s\",\"mode\":\"inproc\",\"bound\":%d,\"completed_bound\":%d,\"exhaustive\":%s,\"executions\":%ld,\"pruned\":0,\"violations\":%ld,\"known\":0,\"horizon_unresolved\":0,\"slow_executions\":0,\"distinct_outcomes\":%ld,\"distinct_conflict_outcomes\":%ld,\"conflict_executions\":%ld,\"states\":%ld,\"transitions\":%ld,\"choice_points\":%ld,\"cases\":%ld,\"wall_s\":%.3f,\"fp_pruning\":false,\"engine_error\":false,\"engine_msg\":\"\",\"replay\":\"%s\",",
       O.tag.c_str(),O.bound,viol?-1:O.bound,viol?"false":"true",execs,viol,distinct,distinct,execs,points+cases,points+execs,points,cases,wall,jesc(replaypath).c_str());
       fprintf(f,"\"violation_msgs\":["); if(vj>=0) fprintf(f,"\"violation: %s (case %ld)\"",jesc(sh[vj].msg).c_str(),sh[vj].vcase); fprintf(f,"],\"known_msgs\":{},\"outcomes\":[],\"samples\":["); int ns=0; for(int j=0;j<jobs&&ns<4;j++) for(int i=0;i<sh[j].nsample&&ns<4;i++) fprintf(f,"%s\"%s\"",ns++?",":"",jesc(sh[j].sample[i]).c_str()); fprintf(f,"]}\n"); fclose(f);} }
